@@ -44,6 +44,8 @@ func c03Ops(root string) []c03Op {
 		for _, ts := range []int64{1, 2} {
 			ops = append(ops, c03Op{kind: "np", node: n, typ: "v", ts: ts, val: float64(ts) * 1.5})
 		}
+		// same timestamp as an earlier write, other value: the store accepts it (ties overwrite)
+		ops = append(ops, c03Op{kind: "np", node: n, typ: "v", ts: 2, val: 99})
 	}
 	parents := map[string][]string{"A": {root}, "B": {root, "A"}, "C": {root, "A", "B"}}
 	for _, n := range c03Nodes {
@@ -56,6 +58,7 @@ func c03Ops(root string) []c03Op {
 			for _, ts := range []int64{1, 2} {
 				ops = append(ops, c03Op{kind: "ep", node: n, parent: p, typ: "role", ts: ts, val: float64(ts)})
 			}
+			ops = append(ops, c03Op{kind: "ep", node: n, parent: p, typ: "role", ts: 2, val: 77})
 		}
 	}
 	return ops
@@ -72,7 +75,7 @@ func (m *c03Model) key() string {
 	var s []string
 	for n, ps := range m.np {
 		for t, p := range ps {
-			s = append(s, fmt.Sprintf("N%s/%s@%d", n, t, p.Time.UnixNano()))
+			s = append(s, fmt.Sprintf("N%s/%s@%d=%v", n, t, p.Time.UnixNano(), p.Value))
 		}
 	}
 	for e, ps := range m.edges {
@@ -240,7 +243,7 @@ func checkC03(r *mc.Report, thorough bool) {
 		depths, name = []int{4, 3, 3, 3}, "histories-thorough"
 	}
 	r.Explore(mc.Config{Name: name, Prune: true, SplitDepth: 3,
-		Rule: fmt.Sprintf("explicit-state search: 4 seed states (empty, diamond, deleted mirror, detached populated subtree) x all histories of %v operations (per seed) over 44 operations (node points on root/A/B/C at 2 timestamps = new/newer/stale/duplicate; tombstone set/clear and role points on the 6 forward edges among root,A,B,C = chains, mirrors, diamonds, edge above populated subtree, points-first and edge-first); states = store content incl. points of unattached nodes + remaining depth; after EVERY operation all hashes are recomputed independently, compared across histories, and storeMaint must change nothing", depths)},
+		Rule: fmt.Sprintf("explicit-state search: 4 seed states (empty, diamond, deleted mirror, detached populated subtree) x all histories of %v operations (per seed) over 54 operations (node points on root/A/B/C at 2 timestamps = new/newer/stale/duplicate, plus an equal-timestamp rewrite with another value; tombstone set/clear and role points on the 6 forward edges among root,A,B,C = chains, mirrors, diamonds, edge above populated subtree, points-first and edge-first); states = store content incl. points of unattached nodes + remaining depth; after EVERY operation all hashes are recomputed independently, compared across histories, and storeMaint must change nothing", depths)},
 		c03Body(depths))
 	sh.CleanupTemplate()
 	r.Assume("hash definition: CRC-32/IEEE over time(LE ns)||type||key||text||value bits(LE), XOR of node points, edge points and child edge hashes (docs/ref/sync.md); recomputed by the harness without calling CalcHash/CRC")
